@@ -27,6 +27,8 @@ mod task;
 #[cfg(test)]
 mod tests;
 pub mod timing;
+#[cfg(penguin_rs_verif)]
+pub mod verif_hooks;
 pub mod ws;
 
 use crate::frame::{BindPayload, BindType, Frame};
